@@ -293,7 +293,17 @@ func (s *Script) zeroOf(t types.Type) string {
 	case *types.Interface:
 		return "nil_iface"
 	case *types.Array:
-		return fmt.Sprintf("((as const %s) %s)", s.sortOf(t), s.zeroOf(u.Elem()))
+		es := s.sortOf(u.Elem())
+		if es == "Int" || es == "Bool" {
+			return fmt.Sprintf("((as const %s) %s)", s.sortOf(t), s.zeroOf(u.Elem()))
+		}
+		// cvc5 only accepts values in constant arrays: axiomatise the all-zero array instead
+		n := "zeroarr_" + sortTag(es)
+		if !s.declared[n] {
+			s.declGlobalConst(n, s.sortOf(t))
+			s.axiom(n, fmt.Sprintf("(forall ((i Int)) (! (= (select %s i) %s) :pattern ((select %s i))))", n, s.zeroOf(u.Elem()), n))
+		}
+		return n
 	case *types.Struct:
 		if s.opaqueStruct(t) {
 			nm := s.sortOf(t)
